@@ -17,7 +17,10 @@
 
    Contract (the statement), for EVERY request j of the history: exactly the members in ExtractDefs!Expected of
    request j are reported, each once, at tempdir/<target> with the member's bytes (members extracted by an earlier
-   request are reported again, from the same place, bytes still identical); the temp dir contains exactly the
+   request are reported again, from the same place, bytes still identical; where several members denote one path the
+   file has the bytes of exactly one of them, never a mixture; a history of unfiltered extractions of archive
+   versions 1, 2, .. into one directory - possibly pre-filled with longer files - leaves exactly the bytes of the
+   version just extracted); the temp dir contains exactly the
    files of the requests so far (the union); nothing outside was created or changed; every reported path lies
    inside the temp dir.
    Known finding KF_C20_ReportedPreexisting (defect #15): additionally reported paths OUTSIDE the temp dir are
@@ -32,7 +35,7 @@ Rec == ndJsonDeserialize(IOEnv.TRACE)
 VARIABLES l, case, phase, hdr, nreq, viol, kfUsed
 vars == <<l, case, phase, hdr, nreq, viol, kfUsed>>
 
-NoHdr == [members |-> <<>>, globs |-> <<>>]
+NoHdr == [members |-> <<>>, globs |-> <<>>, vers |-> <<>>]
 Init == l = 1 /\ case = -1 /\ phase = "idle" /\ hdr = NoHdr /\ nreq = 0 /\ viol = {} /\ kfUsed = {}
 
 Ev(e) == l <= Len(Rec) /\ Rec[l].ev = e /\ l' = l + 1
@@ -51,8 +54,13 @@ U == UNION {Expected(hdr.globs[q], ms) : q \in 1..(nreq + 1)}
 NextReq == nreq < Len(hdr.globs) /\ Cur.req = nreq + 1
 Advance == nreq' = nreq + 1 /\ phase' = (IF nreq + 1 = Len(hdr.globs) THEN "ended" ELSE "running")
 
+\* the bytes a file at target path p may have after this request: those of ANY ONE member requested so far that denotes p
+\* (members may alias: a.dlt and ./a.dlt), in the version of the archive this request extracts (hdr.vers[request][member];
+\* a "nofilter" history extracts version j of the archive into the same directory and rewrites every file)
+Ver == hdr.vers[nreq + 1]
+BytesOk(p, len, hash) == \E a \in U : Target(ms, a) = p /\ len = Ver[a].len /\ hash = Ver[a].hash
 GoodReport(r) == /\ r.inside /\ r.m \in E /\ r.exists
-                 /\ r.rel = Target(ms, r.m) /\ r.len = ms[r.m].len /\ r.hash = ms[r.m].hash
+                 /\ r.rel = Target(ms, r.m) /\ BytesOk(r.rel, r.len, r.hash)
 \* the deviation: a path outside the temp dir, reported although nothing was extracted there
 PreexistingReport(r) == /\ ~r.inside /\ r.m \in 1..Len(ms)
                         /\ ~ms[r.m].dir /\ ~Enclosed(ms[r.m].name) /\ ms[r.m].pre /\ Matches(g, ms, r.m)
@@ -60,8 +68,8 @@ PreexistingReport(r) == /\ ~r.inside /\ r.m \in 1..Len(ms)
 
 Rest(rep, tree) ==
   /\ \A i \in E : Cardinality({j \in 1..Len(rep) : rep[j].m = i}) = 1
-  /\ Len(tree) = Cardinality(U)
-  /\ \A i \in U : \E j \in 1..Len(tree) : tree[j].rel = Target(ms, i) /\ tree[j].len = ms[i].len /\ tree[j].hash = ms[i].hash
+  /\ Len(tree) = Cardinality({Target(ms, i) : i \in U})
+  /\ \A i \in U : \E j \in 1..Len(tree) : tree[j].rel = Target(ms, i) /\ BytesOk(tree[j].rel, tree[j].len, tree[j].hash)
   /\ Cur.outside_created = <<>> /\ ~Cur.outside_changed
 
 Result == /\ Ev("result") /\ phase = "running" /\ NextReq
